@@ -64,15 +64,12 @@ Theorem C17_unclosed_reference_refused :
 Proof. exact unclosed_refused. Qed.
 Print Assumptions C17_unclosed_reference_refused.
 
-(* headers: process_header fails (IndexError in the code) exactly for a single-colon header whose last token is jr ... *)
-Theorem C17_header_crash_iff : forall aliases columns dc h,
-  process_header aliases columns dc h = None <->
-  (mem h columns && negb (is_alias aliases h) = false /\ mem (to_snake_case h) columns && negb (is_alias aliases (to_snake_case h)) = false /\
-   dc || contains COLON2 h = false /\
-   exists i, index_of s_jr (map py_strip (py_split [58%N] h)) = Some i /\ nth_error (map py_strip (py_split [58%N] h)) (S i) = None).
-Proof. exact process_header_crash_iff. Qed.
-Print Assumptions C17_header_crash_iff.
-(* ... so "nothing ever crashes" is REFUTED by the faithful model: a column called jr is such a header (finding F23, replayed on /repo) *)
-Theorem C17_no_crash_refuted : exists h, process_header SURVEY_HEADER_ALIASES SURVEY_COLUMNS false h = None.
-Proof. exists [106;114]%N. vm_compute. reflexivity. Qed.
-Print Assumptions C17_no_crash_refuted.
+(* headers: process_header's one partial operation (tokens[jr_idx + 1]) never fails, for ANY alias table, column set, delimiter mode and header *)
+Theorem C17_header_total : forall aliases columns dc h, process_header aliases columns dc h <> None.
+Proof. exact process_header_total. Qed.
+Print Assumptions C17_header_total.
+(* ... and a column that is just called jr is left as it is unless the sheet knows that name *)
+Theorem C17_trailing_jr_untouched : forall aliases columns,
+  process_header aliases columns false s_jr = Some [s_jr] \/ mem s_jr columns = true \/ alias_get s_jr aliases <> None.
+Proof. exact trailing_jr_untouched. Qed.
+Print Assumptions C17_trailing_jr_untouched.
